@@ -479,6 +479,23 @@ theorem stringifyNum_total (N : Int) (b : Bool) (n : Num) : ∃ t, Display.strin
   | frac q => exact ⟨_, rfl⟩
   | flt x => exact C15_precision_total N x
 
+/-- the second rendering of an interval bound (all 17 digits for a float, fix d33389f) cannot fail either -/
+theorem stringifyNumFull_total (N : Int) (n : Num) : ∃ t, Display.stringifyNumFull N n = .ok t := by
+  cases n with
+  | int k => exact ⟨_, rfl⟩
+  | frac q => exact ⟨_, rfl⟩
+  | flt x =>
+    show ∃ t, Display.fmtG 17 x = .ok t
+    unfold Display.fmtG
+    have h17 : ¬ ((17 : Int) < 0) := by decide
+    rw [if_neg h17]
+    dsimp only
+    split
+    · exact ⟨_, rfl⟩
+    · split
+      · exact ⟨_, rfl⟩
+      · split <;> exact ⟨_, rfl⟩
+
 mutual
 theorem stringify_total (names : List Display.Text) (N : Int) (b : Bool) :
     (d : Display.DVal) → ∃ t, Display.stringify names N b d = .ok t
@@ -493,7 +510,9 @@ theorem stringify_total (names : List Display.Text) (N : Int) (b : Bool) :
   | .intv x y => by
     obtain ⟨t1, h1⟩ := stringifyNum_total N false x
     obtain ⟨t2, h2⟩ := stringifyNum_total N false y
-    (simp only [Display.stringify, h1, h2, bind, Except.bind]; exact ⟨_, rfl⟩)
+    obtain ⟨u1, g1⟩ := stringifyNumFull_total N x
+    obtain ⟨u2, g2⟩ := stringifyNumFull_total N y
+    (simp only [Display.stringify, h1, h2, g1, g2, bind, Except.bind]; split <;> exact ⟨_, rfl⟩)
   | .inst iso => ⟨_, rfl⟩
 theorem stringifyList_total (names : List Display.Text) (N : Int) (b : Bool) :
     (xs : List Display.DVal) → ∃ ts, Display.stringifyList names N b xs = .ok ts
